@@ -79,9 +79,14 @@ void PolicyBase::open( bool from_reopen)
 {
 
    const auto  filename = filename::Builder::filename( mFilenameDefinition);
+   // an existing log file is continued, only the file that is opened after the
+   // log files were rolled starts empty
+   const auto  open_mode = from_reopen
+      ? (std::ios_base::out | std::ios_base::trunc)
+      : (std::ios_base::out | std::ios_base::app | std::ios_base::ate);
 
 
-   mFile.open( filename, std::ios_base::out | std::ios_base::ate);
+   mFile.open( filename, open_mode);
 
    if (!mFile || !mFile.is_open())
    {
@@ -94,7 +99,7 @@ void PolicyBase::open( bool from_reopen)
          common::FileOperations::mkdir( path);
 
          // try again
-         mFile.open( filename, std::ios_base::out | std::ios_base::ate);
+         mFile.open( filename, open_mode);
       } // end if
    } // end if
 
